@@ -9,7 +9,7 @@ from hypothesis import strategies as st
 import dadi
 from dadi import Numerics
 from harness import gens
-from harness.core import Registry, Violation, dadi_call, require, require_close
+from harness.core import as_container, Registry, Violation, dadi_call, require, require_close
 from harness.refs import folding, hypergeom
 
 EXHAUSTIVE_NOTE = 'R1 enumerates every (n, m, hits) with 1 <= m <= n <= 40 (quick and thorough); all other relations are sampled'
@@ -113,7 +113,7 @@ def r3(case, rec):
     # mask exactness both directions is part of fs_equal (mask arrays identical).
     # total conserved for unmasked input
     if not mask.any():
-        require_close(got.data.sum(), data.sum(), 1e-11, 'total count after projection', rec)
+        require_close(got.data.sum(), data.sum(), 1e-11, 'total count after projection', rec, atol=1e-290)     # totals in the subnormal range are not judged
     # two-stage = one-stage
     with dadi_call('two-stage projection'):
         two = fs.project(mid).project(ms)
@@ -191,7 +191,7 @@ def r6(case, rec):
     rec.case(case, True, labels=['folded' if case['fs']['folded'] else 'unfolded'])
     ms = case['ms'] + ([1] if case['wrongdim'] else [])
     try:
-        out = fs.project(ms)
+        out = fs.project(as_container(ms, sum(ms)))
     except ValueError:
         return
     except Exception as e:
